@@ -105,6 +105,23 @@ def kf_hash_read_names(inputs):
     return True
 
 
+def kf_read_across_cut_two_genes(inputs):
+    """known-finding class: scenario C05_read_across_cut_two_genes fails, and everything it reports is ONE extra, identical corrected_reads.bed
+    record of the one read (V_000) that lies across the cut between two pieces with different genes"""
+    import re
+    if not isinstance(inputs, dict) or inputs.get("scenario") != "C05_read_across_cut_two_genes" or not inputs.get("report"):
+        return False
+    for line in inputs["report"]:
+        m = re.match(r"\[.*\] corrected_reads\.bed has (\d+) records for (\d+) input primary alignments$", line)
+        if m:
+            if int(m.group(1)) != int(m.group(2)) + 1:
+                return False
+            continue
+        if not re.match(r"\[.*\] identical BED record written 2 times: chr1\t36600\t37600\tV_000\t", line):
+            return False
+    return True
+
+
 def replay_scenario(d):
     sid = d["inputs"]["scenario"]
     rc, lines = run_scenario(sid)
